@@ -15,7 +15,8 @@ Conventions (conservative: when in doubt an access is reported, and reported as 
   * a local name assigned directly from `self.a`, or from `self.a.keys()/items()/values()` (live
     dict views), is an alias: later uses of the name read (method calls: write) the object
     behind self.a;
-  * `self.m(...)` / `Base.m(self, ...)` are inlined through the class's MRO (recursion refused);
+  * `self.m(...)` / `Base.m(self, ...)` are inlined through the class's MRO (recursion refused); a
+    parameter that receives `self.a` or an alias of it is an alias inside the callee;
   * if/while/for/try are flattened: test, then every branch in source order; branches must not
     contain lock operations;
   * a bare `self.l.acquire()` must be followed immediately by `try: ... finally: self.l.release()`,
@@ -148,14 +149,13 @@ class MethodExtractor:
                 eff = ('R', inner, 'Obj') if f.attr in PURE_METHODS else ('W', inner, 'Obj')
                 return self.args(e) + [('R', inner, 'Ref'), eff]
             if is_self(f.value):                        # self.m(...)
-                self.no_shared_args(e)
-                return self.args(e) + self.inline(f.attr, e.lineno)
+                return self.args(e) + self.inline(f.attr, e.lineno, shared=self.shared_args(e))
             if isinstance(f.value, ast.Name) and f.value.id in self.cls.mro_names:     # Base.m(self, ...)
                 if not (e.args and is_self(e.args[0])):
                     raise Refuse('unbound base method call without self (line %d)' % e.lineno)
                 rest = ast.Call(func=f, args=e.args[1:], keywords=e.keywords, lineno=e.lineno)
-                self.no_shared_args(rest)
-                return self.args(rest) + self.inline(f.attr, e.lineno, start_after=f.value.id)
+                return self.args(rest) + self.inline(f.attr, e.lineno, start_after=f.value.id,
+                                                     shared=self.shared_args(rest))
             if isinstance(f.value, ast.Name) and f.value.id in self.aliases:            # alias.m(...)
                 a = self.aliases[f.value.id]
                 eff = ('R', a, 'Obj') if f.attr in PURE_METHODS else ('W', a, 'Obj')
@@ -167,13 +167,21 @@ class MethodExtractor:
             return self.args(e) + [('L',)]
         raise Refuse('call target %s (line %d)' % (type(f).__name__, e.lineno))
 
-    def no_shared_args(self, e):
-        for x in list(e.args) + [k.value for k in e.keywords]:
-            if self_attr(x) is not None or (isinstance(x, ast.Name) and x.id in self.aliases):
-                raise Refuse('shared attribute passed to an inlined method (line %d): '
-                             'the parameter would be an untracked alias' % e.lineno)
+    def shared_args(self, e):
+        """arguments that are self attributes or aliases: {position or keyword: attribute}; the callee's
+        parameter becomes a tracked alias"""
+        out = {}
+        for k, x in list(enumerate(e.args)) + [(kw.arg, kw.value) for kw in e.keywords]:
+            a = self_attr(x)
+            if a is None and isinstance(x, ast.Name) and x.id in self.aliases:
+                a = self.aliases[x.id]
+            if a is not None:
+                if k is None:
+                    raise Refuse('**kwargs in an inlined call (line %d)' % e.lineno)
+                out[k] = a
+        return out
 
-    def inline(self, name, lineno, start_after=None):
+    def inline(self, name, lineno, start_after=None, shared=None):
         key = (name, start_after)
         if key in self.stack or len(self.stack) > 6:
             raise Refuse('recursive or too deep self call %s (line %d)' % (name, lineno))
@@ -183,6 +191,16 @@ class MethodExtractor:
         sub = MethodExtractor(self.cls)
         sub.stack = self.stack + [key]
         sub.aliases = {}
+        params = [a.arg for a in fd.args.args[1:]]
+        for k, attr in (shared or {}).items():
+            if isinstance(k, int):
+                if k >= len(params):
+                    raise Refuse('too many arguments for %s (line %d)' % (name, lineno))
+                sub.aliases[params[k]] = attr
+            else:
+                if k not in params:
+                    raise Refuse('unknown keyword %s for %s (line %d)' % (k, name, lineno))
+                sub.aliases[k] = attr
         return sub.method(fd)
 
     # ------------------------------------------------------------ statements
